@@ -27,6 +27,10 @@ variable {α : Type}
     theorems below (`decide` over the generated table of two numbers). -/
 theorem real_valid : Cfg.real.Valid := by decide
 
+/-- … and POSIX's lower bound: {PIPE_BUF} is at least `_POSIX_PIPE_BUF` = 512, so every write of at most
+    512 bytes is atomic (`write_atomic`), as applications are entitled to assume. -/
+theorem real_posix_pipe_buf : posixPipeBuf ≤ Cfg.real.pipeBuf := by decide
+
 /-- ★ Conservation: in every reachable state — every payload, every capacity with
     `1 ≤ PIPE_BUF ≤ PIPE_SIZE`, every request/buffer size ≥ 1, every interleaving —
     what the reader has received, followed by what is buffered, followed by what the writer has
